@@ -117,15 +117,8 @@ def _build(case, recs, iso):
             h.add_nodes(first + [n for n in iso if n not in first])
         for j, (e, w) in enumerate(zip(es, ws)):
             kw = {"weight": w} if weighted else {}
-            if j % 3 == 2:
-                # the two node sets handed over as frozensets: a container other than the
-                # documented tuple may be refused (then the tuple form is used), but if it is
-                # accepted the hyperedge must be the one described
-                try:
-                    h.add_edge((frozenset(e[0]), frozenset(e[1])), **kw)
-                    continue
-                except (TypeError, ValueError):
-                    pass
+            # (how the container treats sides handed over in another container type, e.g. as
+            # frozensets, is C02's subject: the measures are judged on the documented tuple form)
             h.add_edge(e, **kw)
     if iso:
         h.add_nodes(list(iso))
@@ -233,10 +226,10 @@ def check_signature(case, ctx):
     ctx.trace = {"edges": _show(keys), "M": M, "expected": sorted(exp.items())}
     if M is not None and keys and len(keys) % 2:
         # the same object emptied by clear(): with an explicit bound every cell is 0 (a listing
-        # memoised for the bound must not outlive the hyperedges)
+        # memoised for the bound must not outlive the hyperedges; an empty vector is accepted too)
         h.clear()
         vec = np.asarray(hyperedge_signature_vector(h, max_hyperedge_size=M))
-        require(vec.shape == ((M - 1) ** 2,) and not vec.any(), lambda: (
+        require(vec.shape in (((M - 1) ** 2,), (0,)) and not vec.any(), lambda: (
             "hyperedge_signature_vector(max_hyperedge_size=%s) after clear(): %r, expected %d "
             "zeros (the hyperedges before clear() were %s)"
             % (M, vec.tolist(), (M - 1) ** 2, _show(keys))), key="after-clear")
